@@ -432,6 +432,9 @@ def number_lookahead(check: Check, repo: Repo) -> None:
         raise AnalysisError("read_number: expected >= 2 guarded raises")
 
     def accepted(test: ast.expr) -> set[str]:
+        from sa.tables import inline_locals
+
+        test = inline_locals(test, fn, keep={"char"})  # named sub-conditions (`is_followed_by_dot = char == "."`)
         out = set()
         for ch in ASCII + NON_ASCII_PROBES + [""]:
             try:
@@ -599,7 +602,7 @@ def result_filter(check: Check, repo: Repo) -> None:
     for fn, node, label in sites:
         if fn not in flows:
             flows[fn] = FactFlow(_CFG(fn))
-        facts = {(f.text, f.pol) for f in flows[fn].facts_at(node) if f.kind == "cond"}
+        facts = norm_facts(flows[fn].facts_at(node))
         need = [("result is None", False), ("result is SKIP", False), ("result is False", False),
                 ("result is BREAK", False), ("result is True", False)]
         missing = []
@@ -1264,9 +1267,33 @@ def enter_leave_table(check: Check, repo: Repo, rule: str = "ENTER-LEAVE-TABLE")
     )
     fn = repo.func("language.visitor", "Visitor.get_enter_leave_for_kind")
     mod = repo.mod("language.visitor")
-    handler = next((h for t in fn.body if isinstance(t, ast.Try) for h in t.handlers), None)
-    if handler is None:
-        raise AnalysisError("get_enter_leave_for_kind: except-arm that computes the pair not found")
+    # the block that computes the pair on a cache miss: the except-arm of the lookup, or the body of
+    # `if <cached> is None:` - whichever block contains the EnterLeaveVisitor(...) construction / the helper call
+    def _blocks(node: ast.AST):
+        for f in ("body", "orelse", "finalbody"):
+            b = getattr(node, f, None)
+            if isinstance(b, list) and b and isinstance(b[0], ast.stmt):
+                yield b
+                for s_ in b:
+                    yield from _blocks(s_)
+        for h in getattr(node, "handlers", []):
+            yield h.body
+            for s_ in h.body:
+                yield from _blocks(s_)
+
+    def _computes(s_: ast.stmt) -> bool:
+        v = s_.value if isinstance(s_, (ast.Assign, ast.Return)) else None
+        return isinstance(v, ast.Call) and (call_name(v) == "EnterLeaveVisitor" or (
+            isinstance(v.func, ast.Name) and isinstance(mod.defs.get(v.func.id), ast.FunctionDef) and [unparse(a) for a in v.args] == ["self", "kind"]))
+
+    miss_block = next((b for b in _blocks(fn) if any(_computes(s_) for s_ in b)), None)
+    if miss_block is None:
+        raise AnalysisError("get_enter_leave_for_kind: the block that computes the pair on a cache miss was not found")
+
+    class _H:  # the statements of that block, under the name the code below uses
+        body = miss_block
+
+    handler = _H
     stmts = []
     result_expr = None
     for s in handler.body:
@@ -1426,10 +1453,16 @@ def strip_always_lexes(check: Check, repo: Repo, rule: str = "STRIP-LEXES") -> N
     acc = {
         unparse(s.target) for s in ast.walk(loop) if isinstance(s, ast.AugAssign) and isinstance(s.op, ast.Add)
     }
+    # the other spelling of an accumulator: a list of parts that is joined at the end
+    parts = {unparse(c.func.value) for c in ast.walk(loop) if isinstance(c, ast.Call) and isinstance(c.func, ast.Attribute)
+             and c.func.attr in ("append", "extend") and isinstance(c.func.value, ast.Name)}
     rets = [r for r in walk_body(fn) if isinstance(r, ast.Return)]
     for r in rets:
         early = r.lineno < loop.lineno
-        from_tokens = r.value is not None and unparse(r.value) in acc
+        v = r.value
+        joined = (isinstance(v, ast.Call) and isinstance(v.func, ast.Attribute) and v.func.attr == "join" and isinstance(v.func.value, ast.Constant)
+                  and v.func.value.value == "" and len(v.args) == 1 and unparse(v.args[0]) in parts)
+        from_tokens = v is not None and (unparse(v) in acc or joined)
         ok = not early and from_tokens
         check.ob(rule, r, f"return {unparse(r.value) if r.value is not None else ''}".strip(), ok,
                  "the accumulator filled by the lexing loop" if ok else
@@ -1656,10 +1689,13 @@ def norm_facts(facts) -> set[tuple[str, bool]]:
             e, pol = f.expr, f.pol
             while isinstance(e, ast.UnaryOp) and isinstance(e.op, ast.Not):
                 e, pol = e.operand, not pol
-            if isinstance(e, ast.Name) and e.id in eqs and isinstance(eqs[e.id], (ast.Compare, ast.UnaryOp, ast.Call)):
-                nf = _norm_fact(Fact("cond", eqs[e.id], pol))
-                if nf:
-                    out.add(nf)
+            if isinstance(e, ast.Name) and e.id in eqs and isinstance(eqs[e.id], (ast.Compare, ast.UnaryOp, ast.Call, ast.BoolOp)):
+                from sa.guards import split_cond
+
+                for sub in split_cond(eqs[e.id], pol):  # `not (a or b)` gives not a, not b; `a and b` gives a, b
+                    nf = _norm_fact(sub)
+                    if nf:
+                        out.add(nf)
     return out
 
 
@@ -1788,8 +1824,13 @@ def separator_table(check: Check, repo: Repo, rule: str = "SEPARATOR-TABLE") -> 
     if len(loops) != 1:
         raise AnalysisError("strip_ignored_characters: token loop not found")
     body = loops[0].body
-    sep = next((s for s in body if isinstance(s, ast.If) and any(
-        isinstance(x, ast.AugAssign) and isinstance(x.value, ast.Constant) and x.value.value == " " for x in s.body)), None)
+    def _writes_space(x: ast.AST) -> bool:
+        if isinstance(x, ast.AugAssign) and isinstance(x.value, ast.Constant) and x.value.value == " ":
+            return True
+        return (isinstance(x, ast.Expr) and isinstance(x.value, ast.Call) and isinstance(x.value.func, ast.Attribute) and x.value.func.attr == "append"
+                and len(x.value.args) == 1 and isinstance(x.value.args[0], ast.Constant) and x.value.args[0].value == " ")
+
+    sep = next((s for s in body if isinstance(s, ast.If) and any(_writes_space(x) for x in s.body)), None)
     if sep is None:
         check.ob(rule, loops[0], "strip_ignored_characters: separator decision", False, "no `if ...: <out> += \" \"` in the token loop: tokens are glued together")
         return
